@@ -76,7 +76,8 @@ pg.FLATTEN[SKIP_NONSTR] = (pg.SKIP,)
 pg.FLATTEN[MULTI_NESTED_KBI] = (pg.ERROR, pg.KBI)
 MULTI_EMPTY = "multi_empty"
 pg.FLATTEN[MULTI_EMPTY] = (pg.ERROR,)  # nothing inside: the MultipleExceptions itself is the error
-KINDS = pg.ALL_KINDS + (SKIP_NONSTR, MULTI_NESTED_KBI, MULTI_EMPTY)
+pg.FLATTEN[pg.RETVAL] = ()
+KINDS = pg.ALL_KINDS + (SKIP_NONSTR, MULTI_NESTED_KBI, MULTI_EMPTY, pg.RETVAL)
 _base_perform = pg.perform
 
 
